@@ -25,8 +25,8 @@ chained at the level of outcomes (`Chain` of links).
   `LkS.permLocal`, `LkS.localFnToAssign`, `LkE.injectGlobal`, `LkE.ofCtxEq` / `LkS.ofCtxEq`
   (contextual exact equalities), `LkE.ofEq` … (exact steps).
 * `HooksExact.toHeap` — exactly sound hooks that introduce no new references are heap hooks.
-* NOT covered: renumbering of tables / closures (`Heap/General.lean` states the missing invariance as
-  `renumbering_invariance : Prop`); re-declaration of a dropped / watched name (dead sets are
+* NOT covered here: renumbering of tables / closures — see stage 4, `Shared/VisitorSoundHeapV.lean`
+  (`HooksV`, `Visitor.visit_v`, `Sem.HeapV.renumbering_invariance`); re-declaration of a dropped / watched name (dead sets are
   flow-insensitive); hooks that are sound only where the processor's scope tracker is exact on a
   program that shadows a watched name (such programs are outside `NoRefB (watD cx) b`).
 -/
